@@ -237,7 +237,7 @@ def _run(prop, tier, args, sel, root, log, seed, t_start, propdef):
             c = rec["cls"]
             print("  %-44s %-12s %6.1fs  checks %d/%d  %s" % (
                 inst["name"], c["verdict"].upper(), rec.get("wall", 0), c.get("n_success", 0), c.get("n_checks", 0),
-                ("; ".join(c["reasons"] + ["FAILED: " + x["desc"] for x in c.get("failed", [])])[:260])), flush=True)
+                ("; ".join(c["reasons"] + ["FAILED: " + x["desc"] + " @" + str(x["loc"].get("file", ""))[-30:] + ":" + str(x["loc"].get("line", "")) for x in c.get("failed", [])])[:360])), flush=True)
 
     order = sorted(sel, key=lambda i: -(i["mem"] * 1000 + (i["timeout"] or 0)))
     threads = []
@@ -300,6 +300,9 @@ def _run(prop, tier, args, sel, root, log, seed, t_start, propdef):
             print("    harness %s: %s" % (name, r["desc"]))
             print("    values: %s" % (rep.get("values_named") or rep.get("values"),))
         rc_final = 1
+    elif violations and not unconfirmed:
+        print("INCONCLUSIVE property=%s: %d failing check(s) were not replayed" % (prop, len(violations)))
+        rc_final = 2
     elif unconfirmed:
         for name, r, rep in unconfirmed:
             print("INCONCLUSIVE property=%s: solver counterexample for '%s' in %s did not reproduce natively (%s)"
